@@ -12,6 +12,7 @@ pub mod c11;
 pub mod c12;
 pub mod c16;
 pub mod c17;
+pub mod c18;
 pub mod c19;
 pub mod c20;
 pub mod cpu;
@@ -32,6 +33,7 @@ pub fn all() -> Vec<Box<dyn Property>> {
         Box::new(c12::C12),
         Box::new(c16::C16),
         Box::new(c17::C17),
+        Box::new(c18::C18),
         Box::new(c19::C19),
         Box::new(c20::C20),
     ]
